@@ -433,19 +433,77 @@ theorem normExpr_typed {L : Lang} {σ : Store} {e : TExpr} (ok : OkStore L σ) (
   ⟨⟨okExpr_normExpr ok e h.ok, fun ρ hρ => wellTyped_normExpr hρ e (h.wt ρ hρ)⟩,
    fun ρ hρ => by rw [normExpr_ty, den_normT hρ]⟩
 
-/-- `Expr.fix()` (the fixing pass, then normalisation against the final store) keeps the tree typed;
-the type of the root keeps its meaning -/
-theorem fixExpr_typed {L : Lang} (wf : WF L) (e : TExpr) (σ σ' : Store) (e' : TExpr)
-    (g : GoodStore L σ) (ht : TypedIn L σ e) (h : fixExpr L σ e = .ok (σ', e')) :
-    Step L σ σ' ∧ TypedIn L σ' e' ∧ ∀ ρ, Sat L ρ σ' → den ρ e'.ty = den ρ e.ty := by
-  unfold fixExpr at h
-  split at h
-  · cases h
-  · rename_i σ1 e1 hc
+/-- `Expr.fix()` (one recursion, in Python's order: children first, then the node's own type is fixed and
+normalised against the store of that moment) keeps the tree typed in the final store; the type of the root
+keeps its meaning. Every `fix` step only shrinks the solutions, `normT σ t` means the same as `t` under every
+solution of `σ`, and a term that is well formed in a store stays so in every later store. -/
+theorem fixExpr_typed {L : Lang} (wf : WF L) : ∀ (e : TExpr) (σ σ' : Store) (e' : TExpr),
+    GoodStore L σ → TypedIn L σ e → fixExpr L σ e = .ok (σ', e') →
+    Step L σ σ' ∧ TypedIn L σ' e' ∧ ∀ ρ, Sat L ρ σ' → den ρ e'.ty = den ρ e.ty
+  | .src i l t, σ, σ', e', g, ht, h => by
+    unfold fixExpr at h
+    split at h
+    · cases h
+    · rename_i σ1 t1 hf
+      cases h
+      obtain ⟨h1, h2, h3, _, h5, h6⟩ := fix_sound wf g.1 g.2 ht.ty hf
+      exact ⟨step_of_parts h1 h2 h3 (fun ρ hρ => (h6 ρ hρ).1), typedIn_src (okTerm_normT h1 h5),
+        fun ρ hρ => by
+          show den ρ (normT σ' t1) = den ρ t
+          rw [den_normT hρ]; exact (h6 ρ hρ).2⟩
+  | .op n t, σ, σ', e', g, ht, h => by
+    unfold fixExpr at h
     cases h
-    obtain ⟨st, t1, d1⟩ := fixExprCore_typed wf e σ σ' e1 g ht hc
-    obtain ⟨t2, d2⟩ := normExpr_typed st.ok t1
-    exact ⟨st, t2, fun ρ hρ => by rw [d2 ρ hρ, d1 ρ hρ]⟩
+    exact ⟨Step.refl g.1 g.2, typedIn_op (okTerm_normT g.1 ht.ty), fun ρ hρ => by
+      show den ρ (normT σ t) = den ρ t
+      exact den_normT hρ t⟩
+  | .app f x t, σ, σ', e', g, ht, h => by
+    unfold fixExpr at h
+    split at h
+    · cases h
+    · rename_i σ1 f1 hf1
+      split at h
+      · cases h
+      · rename_i σ2 x1 hx1
+        split at h
+        · cases h
+        · rename_i σ3 t1 hfix
+          cases h
+          have hok := ht.ok
+          unfold okExpr at hok
+          simp only [Bool.and_eq_true] at hok
+          have tf : TypedIn L σ f := ⟨hok.1.1, fun ρ hρ => by have := ht.wt ρ hρ; unfold WellTyped at this; exact this.1⟩
+          have tx : TypedIn L σ x := ⟨hok.1.2, fun ρ hρ => by have := ht.wt ρ hρ; unfold WellTyped at this; exact this.2.1⟩
+          obtain ⟨st1, tf1, df1⟩ := fixExpr_typed wf f σ σ1 f1 g tf hf1
+          obtain ⟨st2, tx1, dx1⟩ := fixExpr_typed wf x σ1 σ2 x1 ⟨st1.ok, st1.nc⟩ (tx.mono st1) hx1
+          have st12 := st1.trans st2
+          obtain ⟨h1, h2, h3, _, h5, h6⟩ := fix_sound wf st2.ok st2.nc (st12.okTerm hok.2) hfix
+          have st3 : Step L σ2 σ' := step_of_parts h1 h2 h3 (fun ρ hρ => (h6 ρ hρ).1)
+          have hden : ∀ ρ, Sat L ρ σ' → den ρ (normT σ' t1) = den ρ t := fun ρ hρ => by
+            rw [den_normT hρ]; exact (h6 ρ hρ).2
+          refine ⟨st12.trans st3, ⟨?_, fun ρ hρ => ?_⟩, hden⟩
+          · unfold okExpr
+            simp only [Bool.and_eq_true]
+            exact ⟨⟨(tf1.mono (st2.trans st3)).ok, (tx1.mono st3).ok⟩, okTerm_normT h1 h5⟩
+          · have hρ2 := st3.sat ρ hρ
+            have hρ1 := st2.sat ρ hρ2
+            have hρ0 := st1.sat ρ hρ1
+            have hw := ht.wt ρ hρ0
+            unfold WellTyped at hw ⊢
+            refine ⟨(tf1.mono (st2.trans st3)).wt ρ hρ, (tx1.mono st3).wt ρ hρ, ?_⟩
+            rw [df1 ρ hρ1, dx1 ρ hρ2, hden ρ hρ]
+            exact hw.2.2
+  | .shared k e, σ, σ', e', g, ht, h => by
+    unfold fixExpr at h
+    split at h
+    · cases h
+    · rename_i σ1 e1 he
+      cases h
+      have te : TypedIn L σ e :=
+        ⟨by have := ht.ok; unfold okExpr at this; exact this,
+         fun ρ hρ => by have := ht.wt ρ hρ; unfold WellTyped at this; exact this⟩
+      obtain ⟨st, t1, d1⟩ := fixExpr_typed wf e σ σ' e1 g te he
+      exact ⟨st, ⟨by unfold okExpr; exact t1.ok, fun ρ hρ => by unfold WellTyped; exact t1.wt ρ hρ⟩, d1⟩
 
 /-- `Language.parse` followed by `Expr.fix()` -/
 theorem parseTyped_nodes {P : PLang} (wf : WF P.types) (ha : AliasesOk P) {ops : List OperatorDecl}
